@@ -8,6 +8,7 @@ import (
 	"fmt"
 	"sort"
 	"strings"
+	"time"
 
 	bp "ebuverif/internal/busprog"
 	"ebuverif/internal/evt"
@@ -43,6 +44,8 @@ type shape struct {
 	syncToo   bool // an extra synchronous handler on a
 	pubCancel int  // publishes use a context: 1 = cancelled before the publish, 2 = cancelled by a task at an explored point, 3 = like 2 but only the first publish uses it, the later ones a live context
 	seq       bool // the async handlers are Sequential too
+	onceFirst bool // a synchronous Once handler is registered before the async handlers (it retires during the first publish while another publish may be walking the list)
+	gate      bool // the first invocation of handler a/h0 blocks until everything is published (virtual time): the other deliveries pile up behind it
 	shards    int  // 0: outer and nested event types share a routing shard; 1: nested type in another shard; 2: the same with the roles of the two types swapped
 	twice     bool // after the first Shutdown returned (whatever it returned) and the bus went idle, publish again and call Shutdown with a live context
 }
@@ -89,7 +92,23 @@ func (in *inst) Body() {
 			in.rec.Add("exit", hid, id, "")
 		}
 	}
-	A.SubCustom(bus, mk(hA0, s.nested), nil, evt.SubOpts{Async: true, Sequential: s.seq})
+	if s.onceFirst {
+		A.SubCustom(bus, func(context.Context, int) {}, nil, evt.SubOpts{Once: true})
+	}
+	gate := make(chan struct{})
+	gated := false
+	h0 := mk(hA0, s.nested)
+	if s.gate {
+		inner := h0
+		h0 = func(ctx context.Context, id int) {
+			if !gated {
+				gated = true
+				vrt.Recv(gate)
+			}
+			inner(ctx, id)
+		}
+	}
+	A.SubCustom(bus, h0, nil, evt.SubOpts{Async: true, Sequential: s.seq})
 	if s.twoH {
 		A.SubCustom(bus, mk(hA1, false), nil, evt.SubOpts{Async: true, Sequential: s.seq})
 	}
@@ -124,6 +143,10 @@ func (in *inst) Body() {
 				A.Pub(bus, id)
 			}
 			in.rec.Add("ret", id, 0, "")
+		}
+		if s.gate && w == 0 {
+			vrt.Sleep(time.Millisecond) // everything else is parked by now
+			vrt.Close(gate)
 		}
 		in.rec.Add("wcall", w, 0, "")
 		if s.shutdown && w == 0 {
@@ -433,6 +456,8 @@ func shapes(thorough bool) []shape {
 		{name: "wait/first-publish-ctx-cancelled-later-live", pubs: 2, twoH: true, pubCancel: 3},
 		{name: "shutdown/sequential-first-publish-ctx-cancelled-later-live", pubs: 2, seq: true, shutdown: true, pubCancel: 3},
 		{name: "wait/sequential-nested", pubs: 2, seq: true, nested: true},
+		{name: "wait/once-handler-retires-while-another-publish-walks-the-list", pubs: 1, other: 1, twoH: true, onceFirst: true},
+		{name: "wait/2pub-once-handler-first", pubs: 2, twoH: true, onceFirst: true},
 		{name: "shutdown/twice-first-succeeds", pubs: 1, shutdown: true, twice: true},
 		{name: "shutdown/twice-first-times-out", pubs: 1, shutdown: true, preCancel: true, twice: true},
 		{name: "shutdown/twice-cancel-race", pubs: 1, shutdown: true, canceller: true, twice: true},
@@ -458,10 +483,22 @@ func scenario(s shape) vrt.Scenario {
 	return vrt.Scenario{Name: s.name, New: func() vrt.Instance { return &inst{s: s} }}
 }
 
+// deep single-schedule shapes: many deliveries pending behind one blocked invocation
+func deepShapes() []shape {
+	return []shape{
+		{name: "wait/40-deliveries-pending-behind-a-blocked-sequential-invocation", pubs: 40, seq: true, gate: true},
+		{name: "wait/40-deliveries-pending-two-async-handlers", pubs: 40, twoH: true, gate: true},
+		{name: "shutdown/20-deliveries-pending-behind-a-blocked-sequential-invocation", pubs: 20, seq: true, gate: true, shutdown: true},
+	}
+}
+
 func run(c *h.Check) {
 	bound := 2
 	if c.Thorough() {
 		bound = 3
+	}
+	for _, s := range deepShapes() {
+		c.ExploreOne(scenario(s)) // one schedule each: the backlog is built by virtual time, not by preemptions
 	}
 	for _, s := range shapes(c.Thorough()) {
 		if c.TimeUp() {
@@ -479,7 +516,7 @@ func run(c *h.Check) {
 }
 
 func replay(c *h.Check, rf *h.ReplayFile) []vrt.Violation {
-	for _, s := range shapes(true) {
+	for _, s := range append(shapes(true), deepShapes()...) {
 		if s.name == rf.Scenario || s.name+"/unbounded-pruned" == rf.Scenario {
 			return h.ReplaySchedule(scenario(s), rf)
 		}
